@@ -21,7 +21,7 @@ import (
 func init() {
 	register(&Prop{
 		ID: "C16",
-		Rule: "ground-truth polygon sets on the integer lattice (1..3 disjoint outers: rectangles, L-shapes, octagons; 0..2 rectangular holes each, strictly inside; no vertex at 0,0) cut at every/random vertex subsets into 1..5 pieces per ring, each piece reversed or not, members shuffled, coordinates from node objects or from annotated way nodes, members with correct orientation annotations or none, relation with or without own tags (old-style single outer); small instances enumerate all cut/reverse choices; " +
+		Rule: "ground-truth polygon sets on the integer lattice (1..3 disjoint outers: rectangles, L-shapes, octagons; 0..2 rectangular holes each, strictly inside; no vertex at 0,0) cut at every/random vertex subsets into 1..5 pieces per ring, each piece reversed or not, members shuffled, coordinates from node objects or from annotated way nodes, members with correct orientation annotations, none, or only some members of a ring annotated, relation with or without own tags (old-style single outer); small instances enumerate all cut/reverse choices; " +
 			"plus a horseshoe outer with a horseshoe hole (a concave hole whose bounding-box centre lies outside the outer); " +
 			"non-trivial = at least 3 member ways; distinct = distinct op line",
 		Gen: c16Gen,
@@ -362,10 +362,13 @@ func c16One(r *Rng, nOuter, nHoles, cutsO, revO, cutsI, revI, mode int) string {
 			nodeToks = append(nodeToks, fmt.Sprintf("%d~%d~%d~1~1~0~-", all[i].id, all[i].p[0], all[i].p[1]))
 		}
 	}
+	// partly annotated relations (some members of a ring carry their orientation, others of the same ring do not):
+	// a relation annotated before a member way was added, or a hand-merged one
+	partly := annotate && r.Chance(30)
 	for _, pi := range perm {
 		p := pieces[pi]
 		or := 0
-		if annotate {
+		if annotate && !(partly && r.Chance(50)) {
 			// the direction in which this way runs around its ring
 			runsCCW := p.fwd == p.ccwR
 			if runsCCW {
